@@ -36,7 +36,7 @@ def cases(tier, seed):
     rng = np.random.default_rng(subseed("C04", seed))
     nrun = 2500 if tier == "quick" else 80000
     for i in range(nrun):
-        ps = gen.rand_spec(rng, FAMS, nmax=6, boxes=("none", "mixed", "boxed", "lower", "narrow"), starts=("interior", "face", "vertex"))
+        ps = gen.rand_spec(rng, FAMS, nmax=6, boxes=("none", "mixed", "boxed", "lower", "narrow", "nonneg", "unit"), starts=("interior", "face", "vertex"))
         cfg = {
             "jac": "callable" if rng.random() < 0.85 else gen.pick(rng, [None, "2-point"]),
             "maxcor": int(rng.integers(1, 8)),
@@ -50,6 +50,8 @@ def cases(tier, seed):
             "ftarget_callable": bool(rng.random() < 0.4),
             "cb": gen.pick(rng, [None, "never", "never", 1, 2, 4]),
         }
+        if rng.random() < 0.2:
+            cfg["scaler"] = float(np.exp(rng.uniform(np.log(1e-2), np.log(1e2))))
         restarts = []
         for _ in range(int(rng.integers(1, 3))):
             restarts.append({"dnit": int(rng.integers(-3, 3)), "raise_maxfun": bool(rng.random() < 0.5),
@@ -86,14 +88,17 @@ def judge_result(out, P, tr, cfg, nit0, n0, where, tags):
     if pg <= cfg["gtol"]:
         limits.append("pg")
     tgt = cfg.get("ftarget")
-    if tgt is not None and r["fun"] <= tgt:
+    sc = float(cfg["scaler"]) if (cfg.get("scaler") is not None and tr.scaler_calls) else 1.0
+    fun_user = r["fun"] / sc  # the target is expressed in the user's (unscaled) units
+    if tgt is not None and fun_user <= tgt:
         limits.append("target")
     cb_true = any(rec["ret"] for rec in tr.cb)
     # --- implications ----------------------------------------------------
     if key == "PGTOL" and not (pg <= cfg["gtol"]):
         out.violate("pgtol_message_false", f"{where}: PGTOL message but projected gradient of (x, jac) = {pg!r} > gtol = {cfg['gtol']!r}", message=key, **tags)
-    if key == "TARGET" and not (tgt is not None and r["fun"] <= tgt):
-        out.violate("target_message_false", f"{where}: TARGET message but fun={r['fun']!r}, ftarget={tgt!r}", message=key, **tags)
+    if key == "TARGET" and not (tgt is not None and fun_user <= tgt):
+        out.violate("target_message_false", f"{where}: TARGET message but fun={r['fun']!r} (scaling factor {sc!r}: {fun_user!r} in the user's units), "
+                    f"ftarget={tgt!r}", message=key, **tags)
     if key == "ITER" and not (r["nit"] >= cfg["maxiter"]):
         out.violate("iteration_message_false", f"{where}: iteration-limit message but nit={r['nit']} < maxiter={cfg['maxiter']}", message=key, **tags)
     if key == "EVAL" and not (r["nfev"] >= cfg["maxfun"]):
@@ -190,6 +195,8 @@ def run(spec):
             break
         ck = cur.result
         c2 = dict(cfg)
+        if c2.pop("scaler", None) is not None:
+            break  # restart chains are explored without scaler (see C03's known finding about scaled checkpoints)
         c2["maxiter"] = max(0, int(ck.nit) + rs["dnit"])
         if rs["raise_maxfun"]:
             c2["maxfun"] = int(ck.nfev) + int(cfg["maxfun"]) + 3
